@@ -169,3 +169,10 @@ def r7(rr, repo):
 def r8(rr, repo):
     from .c01 import r6 as c01r6
     c01r6(rr, repo)
+
+
+@rule('C07.R9', "a frame that was overtaken is never relabelled: when a downstream request shows that the id being sent is already behind, the publisher discards the frame and moves its counter on - publishing it "
+                "under the newer id (the one thing the join's 'discard older' test cannot see) puts an old frame behind a newer one in the rejoined stream (shares C02.R3)")
+def r9(rr, repo):
+    from .c02 import r3 as c02r3
+    c02r3(rr, repo)
